@@ -119,7 +119,7 @@ class Sim:
         return ('bars ' + ' '.join('%d:%d:%s' % (d, b, 'inf' if e is None else e) for d, b, e in self.bars())).rstrip()
 
 
-def gen_case(rng, caps, p=2, want_vine=False, want_rep=False, custom_ids=False, observe_every=0.5, ident=True, insert_after_swap=None, plain_ids=False):
+def gen_case(rng, caps, p=2, want_vine=False, want_rep=False, custom_ids=False, observe_every=0.5, ident=True, insert_after_swap=None, plain_ids=False, dup_p=0.0):
     # chain matrices order later insertions by identifier, which is wrong once swaps have happened (known finding D31):
     # by default such histories are not generated for the chain flavour
     if insert_after_swap is None: insert_after_swap = caps.get('flav') != 2
@@ -152,7 +152,9 @@ def gen_case(rng, caps, p=2, want_vine=False, want_rep=False, custom_ids=False, 
     if rng.random() < observe_every: obs()
     steps = rng.randrange(0, 14) if not on_demand else 0
     removed = []
+    if dup_p and rng.random() < 2 * dup_p: lines.append('dup %d' % rng.randrange(5))
     for _ in range(steps):
+        if rng.random() < dup_p: lines.append('dup %d' % rng.randrange(5))
         r = rng.random()
         if caps['vine'] and want_vine and r < 0.55:
             sw = sim.admissible_swaps()
@@ -195,6 +197,7 @@ def simulate(case):
                 if c: b[int(r)] = c
             sim.ins(int(t[1]), int(t[2]), b); out.append('ins')
         elif o == 'ids': out.append('ids')
+        elif o == 'dup': out.append('dup')
         elif o == 'bars': out.append(sim.bars_line())
         elif o == 'ident': out.append('ident 1')
         elif o == 'rmlast':
